@@ -1755,13 +1755,52 @@ fn beyond_radius_faults(ctx: &Ctx, rng: &mut Rng, s: &SizeInfo, faults: &mut Vec
 
 pub fn generate(ctx: &Ctx, prop: &str, seed: u64, i: u64) -> Trace {
     let mut rng = Rng::new(seed);
-    match prop {
+    let mut t = match prop {
         "C03" => gen_c03(ctx, &mut rng, i),
         "C09" => gen_c09(ctx, &mut rng, i),
         "C05" => gen_c05(ctx, &mut rng, i),
         "C08" => gen_c08(ctx, &mut rng, i),
         _ => panic!("no generator for property {}", prop),
+    };
+    // histories: in a small share of the runs the consumer is first called on related damage of the same
+    // symbol (the same faults minus the last few, plus one more, or exactly the same), then on the damage
+    // that is checked. The system under test is stateless today; a cache or scratch buffer that leaks from
+    // one call into the next would show here.
+    if prop != "C08" && !t.faults.is_empty() && t.faults.len() <= 400 && rng.chance(1, 25) {
+        let main = t.faults.clone();
+        let cw_only = main.iter().all(|f| matches!(f.op, Op::CwXor { .. } | Op::CwSet { .. }));
+        let mut hist: Vec<Fault> = Vec::new();
+        let n_calls = rng.range(1, 2);
+        for _ in 0..n_calls {
+            let mut seg = main.clone();
+            match rng.below(4) {
+                0 => {
+                    let keep = rng.range(0, seg.len() - 1);
+                    seg.truncate(keep);
+                }
+                1 if cw_only => {
+                    // one more error somewhere (values of the shared part unchanged: the syndromes share structure)
+                    if let Some(Fault { op: Op::CwXor { pos, .. }, .. }) = seg.first().cloned() {
+                        seg.push(Fault::new("cw_subst", Op::CwXor { pos: pos ^ 1, mask: rng.nonzero_byte() }));
+                    }
+                }
+                2 => {
+                    // the same positions, other values
+                    for f in seg.iter_mut() {
+                        if let Op::CwXor { mask, .. } = &mut f.op {
+                            *mask = rng.nonzero_byte();
+                        }
+                    }
+                }
+                _ => {}
+            }
+            hist.extend(seg);
+            hist.push(Fault::new("history", Op::NextCall));
+        }
+        hist.extend(main);
+        t.faults = hist;
     }
+    t
 }
 
 fn gen_c03(ctx: &Ctx, rng: &mut Rng, i: u64) -> Trace {
